@@ -527,17 +527,15 @@ class Tr:
       fail(s, 'while condition with a checked division')
     types = ' * '.join(self.coqtype(env.names[x][1]) for x in accs)
     saved = dict(self.seen_types)
-    body = self.block(list(s.body), env, lambda e: self.tup(accs, e), in_loop=False)
+    body = self.block(list(s.body), env, lambda e: self.tup(accs, e), in_loop=True)    # `continue` = next iteration
     for x in accs:
       if self.seen_types.get(x, env.names[x][1]) != env.names[x][1] and saved.get(x) != self.seen_types.get(x):
         fail(s, 'loop-carried variable %s changes type' % x)
     pat = self.pat(accs, env) if len(accs) > 1 else env.names[accs[0]][0]
     after = self.block(rest, env, tail, in_loop)
-    return ('match (fix loop__ (fuel__ : nat) (st__ : %s) {struct fuel__} : option (%s) :=\n'
-            'let %s := st__ in\n'
-            'if %s\n then match fuel__ with 0%%nat => None | S fuel__ => loop__ fuel__ (\n%s) end\n else Some st__) %s %s with\n'
+    return ('match fuel_loop (fun st__ : %s =>\nlet %s := st__ in\n%s)\n (fun st__ : %s =>\nlet %s := st__ in\n%s)\n %s %s with\n'
             '| None => None\n| Some st__ => let %s := st__ in\nSome (\n%s)\nend'
-            % (types, types, pat, cond, body, self.fuel, self.tup(accs, env), pat, after))
+            % (types, pat, cond, types, pat, body, self.fuel, self.tup(accs, env), pat, after))
 
   # ---------------------------------------------------------------- stmts
   MUTATING_METHODS = ('append', 'push', 'pop')
